@@ -85,6 +85,27 @@ func closeTo(f float64, x, scale *big.Rat, k uint) bool {
 	return d.Cmp(scale) <= 0
 }
 
+// reportFail: emit.Report keeps the first 200 monitor failures of a run.  The recorded findings fail on many
+// generated cases (thousands in the thorough tier), which used to fill that list before the later witnesses ran
+// (the big-gap cases, among them the F2 witness 100003, run last), so a listed finding could go unreported in
+// one tier.  At most knownCap failures per RECORDED signature are listed individually (the rest is counted);
+// failures with any other signature are never held back.
+const knownCap = 20
+
+var knownListed = map[string]int{}
+
+func reportFail(rep *emit.Report, id int, clause, sig, detail string, input interface{}) {
+	switch sig {
+	case sigMemBig, sigNoCold, sigD10, sigD10eq, sigGrid:
+		knownListed[sig]++
+		if knownListed[sig] > knownCap {
+			rep.Count("failures_with_a_recorded_signature_not_listed_individually", 1)
+			return
+		}
+	}
+	rep.Fail(id, clause, sig, detail, input)
+}
+
 // =========================================================================================
 // memory-adaptive
 
@@ -270,7 +291,7 @@ func runMem(c memCase, clk *vclock.Clock) memObs {
 
 func monitorMem(c memCase, o memObs, rep *emit.Report) (nontrivial bool) {
 	fail := func(clause, sig, format string, a ...interface{}) {
-		rep.Fail(c.ID, clause, sig, fmt.Sprintf(format, a...), c)
+		reportFail(rep, c.ID, clause, sig, fmt.Sprintf(format, a...), c)
 	}
 	type rd struct {
 		mem int64
